@@ -297,3 +297,44 @@ def r11_3(ctx, run, rule='R11.3', only=None):
                 run.proved(rule, p, d, 'documents passed in parameter order', loc)
     if only is None:
         run.floor(rule, 'calls passing two or more documents to a core', n, 15)
+
+
+# ------------------------------------------------------------------ the sniff accepts exactly the JSONB prefix bytes
+
+def sniff_table(ctx, run, rule='R10.10', floor=1):
+    """Every function of the crate that answers "is this JSONB?" from the first byte of a byte string is evaluated for all 256 values of
+    that byte (and for the empty string): it must answer true exactly for ARRAY_PREFIX, OBJECT_PREFIX and SCALAR_PREFIX.  A sniff that
+    tests only some bits of the byte also answers true for the first bytes of JSON text (digits, `-`, `"`), which then reaches the
+    binary decoder."""
+    from enumeval import first_byte_table
+    f = ctx.facts
+    pre = _prefix_bytes()
+    if not pre:
+        run.undecided(rule, 'constants', 'sniff', 'prefix constants not found (anchor lost)')
+        return
+    n = 0
+    for p, b in sorted(f.bodies.items()):
+        if b.kind == 'Promoted' or str(b.local_ty(0).get('s')) != 'bool' or '::{closure' in p:
+            continue
+        if not p.startswith(('functions::', 'de::', 'lazy_value::', 'util::', 'parser::')):
+            continue
+        tab = first_byte_table(f, p)
+        if tab is None:
+            continue
+        vals, empty = tab
+        if not (vals & pre) or len(vals) > 200:
+            continue          # not a JSONB sniff (a digit / whitespace test ...)
+        n += 1
+        loc = f'{b.file}:{b.line}'
+        extra = sorted(vals - pre)
+        missing = sorted(pre - vals)
+        if not extra and not missing and not empty:
+            run.proved(rule, p, 'sniff', f'true exactly for first bytes {sorted(hex(x) for x in pre)}, false for the empty string (evaluated for all 256 byte values)', loc)
+        elif extra:
+            shown = ', '.join(repr(chr(x)) if 32 <= x < 127 else hex(x) for x in extra[:10])
+            run.violation(rule, p, 'sniff', f'answers "JSONB" for {len(extra)} first-byte value(s) that are not prefix bytes ({shown}{" ..." if len(extra) > 10 else ""}): JSON text starting with one of '
+                          'them is handed to the binary decoder', loc)
+        else:
+            run.undecided(rule, p, 'sniff', f'answers "JSONB" only for {sorted(hex(x) for x in vals)}{" and for the empty string" if empty else ""}: a narrower sniff than the three prefixes; what the '
+                          'callers do with the other documents is not decided here', loc)
+    run.floor(rule, 'first-byte sniff functions evaluated', n, floor)
